@@ -96,6 +96,15 @@ def modP (g : Game) (i : Nat) (f : Player → Player) : Game :=
 def mapP (g : Game) (f : Player → Player) : Game :=
   { g with players := g.players.map f }
 
+/-! Field setters (plain record updates, named so that terms stay readable in proofs). -/
+def setEvent (g : Game) (e : Ev) : Game := { g with event := e }
+def setRound (g : Game) (r : Round) : Game := { g with round := r }
+def setCur (g : Game) (i : Nat) : Game := { g with cur := i }
+def setRaiser (g : Game) (i : Nat) : Game := { g with raiser := i }
+def setCw (g : Game) (x : Int) : Game := { g with cw := x }
+def setPrev (g : Game) (x : Int) : Game := { g with prev := x }
+def addRoundPot (g : Game) (x : Int) : Game := { g with roundPot := g.roundPot + x }
+
 /-- game.go `addPlayer`: the cached dealer is the last player holding the position. -/
 def dealerIdx? (g : Game) : Option Nat :=
   (g.players.reverse.find? (·.posDealer)).map (·.idx)
@@ -130,11 +139,15 @@ def availableActions (g : Game) (p : Player) : List Act :=
       [.check] ++
       (if p.initial ≥ g.miniBet then (if g.cw = 0 then [.bet] else [.raise]) else []))
 
+def clearAllowed (p : Player) : Player := { p with allowed := [] }
+
+/-- the second half of game.go `SetCurrentPlayer`: offer the seat its actions. -/
+def offer (g : Game) (i : Nat) : Game :=
+  g.modP i fun p => { p with allowed := g.availableActions p }
+
 /-- game.go: `SetCurrentPlayer`. -/
 def setCurrentPlayer (g : Game) (i : Nat) : Game :=
-  let g := g.modP g.cur (fun p => { p with allowed := [] })
-  let g := { g with cur := i }
-  g.modP i (fun p => { p with allowed := g.availableActions p })
+  ((g.modP g.cur clearAllowed).setCur i).offer i
 
 /-- game.go: `ResetAllPlayerAllowedActions` (`Reset` clears `Acted` too). -/
 def resetAllAllowed (g : Game) : Game :=
@@ -151,64 +164,66 @@ def resetRoundStatus (g : Game) : Game :=
 /-- game.go: `ResetActedPlayers`. -/
 def resetActed (g : Game) : Game := g.mapP fun p => { p with acted := false }
 
+def setActed (g : Game) (i : Nat) : Game := g.modP i fun p => { p with acted := true }
+
 /-- game.go: `BecomeRaiser`. -/
 def becomeRaiser (g : Game) (i : Nat) : Game :=
-  let g := { g with raiser := i }
-  (g.resetActed).modP i fun p => { p with acted := true }
+  ((g.setRaiser i).resetActed).setActed i
+
+def goAllin (p : Player) : Player := { p with wager := p.initial, stack := 0 }
+def putWager (w : Int) (p : Player) : Player := { p with wager := w, stack := p.initial - w }
+
+/-- player.go `pay`, the branch `StackSize <= chips` (all-in). -/
+def payAllin (g : Game) (i : Nat) (p : Player) (isWager : Bool) : Game :=
+  let g1 := (g.addRoundPot (p.initial - p.wager)).modP i goAllin
+  if isWager then
+    let g2 := if p.initial > g.cw then g1.setCw p.initial else g1
+    if p.initial - g.cw ≥ g.cw + g.prev then g2.becomeRaiser i else g2.resetActed
+  else g1
+
+/-- player.go `pay`, the other branch. -/
+def payPart (g : Game) (i : Nat) (p : Player) (chips : Int) (isWager : Bool) : Game :=
+  let g1 := (g.modP i (putWager (p.wager + chips))).addRoundPot chips
+  if isWager && decide (g.cw < p.wager + chips) then (g1.setCw (p.wager + chips)).becomeRaiser i else g1
 
 /-- player.go: `pay`. -/
 def pay (g : Game) (i : Nat) (chips : Int) (isWager : Bool) : Game :=
   match g.players[i]? with
   | none => g
-  | some p =>
-    if p.stack ≤ chips then
-      let g := { g with roundPot := g.roundPot + (p.initial - p.wager) }
-      let g := g.modP i fun q => { q with wager := q.initial, stack := 0 }
-      if isWager then
-        let raised := p.initial - g.cw
-        let minRaise := g.cw + g.prev
-        let g := if p.initial > g.cw then { g with cw := p.initial } else g
-        if raised ≥ minRaise then g.becomeRaiser i else g.resetActed
-      else g
-    else
-      let w := p.wager + chips
-      let g := g.modP i fun q => { q with wager := w, stack := q.initial - w }
-      let g := { g with roundPot := g.roundPot + chips }
-      if isWager && decide (g.cw < w) then ({ g with cw := w }).becomeRaiser i else g
+  | some p => if p.stack ≤ chips then g.payAllin i p isWager else g.payPart i p chips isWager
 
 /-- pot.go: `updatePots`. -/
 def updatePots (g : Game) : Game :=
   { g with pots := potsOf (g.players.map fun p => (p.idx, p.pot + p.wager, p.fold)) }
 
-/-- game.go: `Deal`. -/
-def deal (g : Game) (count : Nat) : List Card × Game :=
-  ((g.opts.deck.drop g.deckPos).take count, { g with deckPos := g.deckPos + count })
+/-- game.go: `Deal`: the cards dealt. -/
+def dealt (g : Game) (count : Nat) : List Card := (g.opts.deck.drop g.deckPos).take count
+
+def advance (g : Game) (count : Nat) : Game := { g with deckPos := g.deckPos + count }
 
 /-- game.go: `Burn`. -/
 def burn (g : Game) (count : Nat) : Game :=
-  let (cs, g) := g.deal count
-  { g with burned := g.burned ++ cs }
+  { g.advance count with burned := g.burned ++ g.dealt count }
 
 def dealBoard (g : Game) (count : Nat) : Game :=
-  let (cs, g) := g.deal count
-  { g with board := g.board ++ cs }
+  { g.advance count with board := g.board ++ g.dealt count }
+
+def dealHole (g : Game) (i : Nat) : Game :=
+  (g.advance g.opts.holeCount).modP i fun p => { p with hole := g.dealt g.opts.holeCount }
 
 /-- game.go `InitializeRound`, preflop: hole cards seat by seat. -/
 def dealHoles : Nat → Nat → Game → Game
   | 0, _, g => g
-  | k + 1, i, g =>
-    let (cs, g) := g.deal g.opts.holeCount
-    dealHoles k (i + 1) (g.modP i fun p => { p with hole := cs })
+  | k + 1, i, g => dealHoles k (i + 1) (g.dealHole i)
+
+def newComb (p : Player) (pw : Option Power) : Player :=
+  match p.comb, pw with
+  | some _, some pw => { p with comb := some { cat := some pw.cat, cards := pw.cards, power := pw.score } }
+  | _, _ => p
 
 /-- power.go: `UpdateCombinationOfAllPlayers`. -/
 def updateCombinations (g : Game) : Game :=
-  g.mapP fun p =>
-    match p.comb with
-    | none => p
-    | some _ =>
-      match playerPower g.opts.lvl g.opts.table g.board p.hole g.opts.required with
-      | none => p
-      | some pw => { p with comb := some { cat := some pw.cat, cards := pw.cards, power := pw.score } }
+  g.mapP fun p => newComb p (playerPower g.opts.lvl g.opts.table g.board p.hole g.opts.required)
 
 /-- settlement.go: `CalculateGameResults`. -/
 def calculateGameResults (g : Game) : Game :=
@@ -217,21 +232,20 @@ def calculateGameResults (g : Game) : Game :=
 
 /-- event.go: `onRoundClosed` (after `EmitEvent(RoundClosed)`). -/
 def roundClosed (g : Game) : Game :=
-  (({ g with event := .roundClosed } : Game).resetAllAllowed).updatePots
+  ((g.setEvent .roundClosed).resetAllAllowed).updatePots
 
 /-- game.go: `RequestPlayerAction` (= `onRoundStarted`). -/
 def requestPlayerAction (g : Game) : Game :=
   if g.aliveCount = 1 then g.roundClosed
   else if g.movableCount = 0 then g.roundClosed
   else
-    let i := g.nextIdx
-    match g.players[i]? with
+    match g.players[g.nextIdx]? with
     | none => g
-    | some p => if p.acted then g.roundClosed else g.setCurrentPlayer i
+    | some p => if p.acted then g.roundClosed else g.setCurrentPlayer g.nextIdx
 
 /-- game.go: `RequestReady`. -/
 def requestReady (g : Game) : Game :=
-  { g.resetAllAllowed with event := .readyRequested }
+  g.resetAllAllowed.setEvent .readyRequested
 
 /-- game.go: `PrepareRound`. -/
 def prepareRound (g : Game) : Game :=
@@ -242,56 +256,56 @@ def prepareRound (g : Game) : Game :=
 /-- game.go: `RequestBlinds`. -/
 def requestBlinds (g : Game) : Game :=
   if g.opts.blindDealer = 0 ∧ g.opts.blindSB = 0 ∧ g.opts.blindBB = 0 then
-    ({ g with event := .blindsPaid } : Game).prepareRound
-  else { g with event := .blindsRequested }
+    (g.setEvent .blindsPaid).prepareRound
+  else g.setEvent .blindsRequested
+
+/-- game.go `InitializeRound`: the dealing for the street at hand. -/
+def dealStreet (g : Game) : Game :=
+  match g.round with
+  | .preflop => dealHoles g.n 0 g
+  | .flop => ((g.burn 1).dealBoard 3).setCurrentPlayer g.dealerIdx
+  | .turn => ((g.burn 1).dealBoard 1).setCurrentPlayer g.dealerIdx
+  | .river => ((g.burn 1).dealBoard 1).setCurrentPlayer g.dealerIdx
+  | .none => g
+
+/-- event.go: `onRoundInitialized`. -/
+def afterRoundInitialized (g : Game) : Game :=
+  if g.round = .preflop then g.requestBlinds else g.prepareRound
 
 /-- game.go: `InitializeRound` followed by `onRoundInitialized`. -/
 def initializeRound (g : Game) : Game :=
-  let g :=
-    match g.round with
-    | .preflop => dealHoles g.n 0 g
-    | .flop => ((g.burn 1).dealBoard 3).setCurrentPlayer g.dealerIdx
-    | .turn => ((g.burn 1).dealBoard 1).setCurrentPlayer g.dealerIdx
-    | .river => ((g.burn 1).dealBoard 1).setCurrentPlayer g.dealerIdx
-    | .none => g
-  let g := g.updateCombinations
-  let g := { g with event := .roundInitialized }
-  if g.round = .preflop then g.requestBlinds else g.prepareRound
+  ((g.dealStreet.updateCombinations).setEvent .roundInitialized).afterRoundInitialized
 
 def enterRound (g : Game) (r : Round) : Game :=
-  ({ g with round := r } : Game).initializeRound
+  (g.setRound r).initializeRound
 
 /-- game.go `StartRound`, preflop: walk from the dealer to the big blind (at most `n` steps). -/
 def seekBB : Nat → Game → Game
   | 0, g => g
   | k + 1, g =>
-    let i := g.nextIdx
-    let g' := g.setCurrentPlayer i
-    match g.players[i]? with
-    | some p => if p.posBB then g' else seekBB k g'
-    | none => g'
+    match g.players[g.nextIdx]? with
+    | some p => if p.posBB then g.setCurrentPlayer g.nextIdx else seekBB k (g.setCurrentPlayer g.nextIdx)
+    | none => g.setCurrentPlayer g.nextIdx
 
-/-- game.go: `StartRound` followed by `onRoundStarted`. -/
-def startRound (g : Game) : Game :=
-  let g := g.resetAllAllowed
+/-- `EmitEvent(RoundStarted)` + `onRoundStarted`. -/
+def openRound (g : Game) : Game := (g.setEvent .roundStarted).requestPlayerAction
+
+/-- game.go `StartRound` after `ResetAllPlayerAllowedActions`. -/
+def startRound' (g : Game) : Game :=
   if g.round = .preflop then
     if g.movableCount = 0 then g.roundClosed
-    else
-      let g := seekBB g.n (g.setCurrentPlayer g.dealerIdx)
-      ({ g with event := .roundStarted } : Game).requestPlayerAction
-  else
-    let g := g.setCurrentPlayer g.dealerIdx
-    ({ g with event := .roundStarted } : Game).requestPlayerAction
+    else (seekBB g.n (g.setCurrentPlayer g.dealerIdx)).openRound
+  else (g.setCurrentPlayer g.dealerIdx).openRound
+
+/-- game.go: `StartRound` followed by `onRoundStarted`. -/
+def startRound (g : Game) : Game := g.resetAllAllowed.startRound'
 
 /-- event.go: `onGameCompleted` … `onSettlementCompleted`. -/
 def gameCompleted (g : Game) : Game :=
-  let g := g.updatePots
-  let g := g.calculateGameResults
-  { g with event := .gameClosed }
+  (g.updatePots.calculateGameResults).setEvent .gameClosed
 
-/-- game.go: `nextRound`. -/
-def nextRound (g : Game) : Game :=
-  let g := g.resetRoundStatus.resetAllPlayerStatus
+/-- game.go `nextRound` after the two resets. -/
+def nextRound' (g : Game) : Game :=
   if g.aliveCount = 1 then g.gameCompleted
   else
     match g.round with
@@ -300,6 +314,9 @@ def nextRound (g : Game) : Game :=
     | .turn => g.enterRound .river
     | .river => g.gameCompleted
     | .none => g
+
+/-- game.go: `nextRound`. -/
+def nextRound (g : Game) : Game := g.resetRoundStatus.resetAllPlayerStatus.nextRound'
 
 /-- event.go: `triggerEvent` for the event recorded in the state (`Resume`).  Only the
     wait-point events can be current between operations (theorem `wait_points`); of
@@ -337,8 +354,7 @@ def start (c : Config) : Game × Option Err :=
   else if g.players.any (fun p => decide (p.bankroll ≤ 0)) then (g, some .notEnoughBankroll)
   else if c.opts.deck.isEmpty then (g, some .noDeck)
   else
-    let g := { g with miniBet := if c.opts.blindDealer > c.opts.blindBB then c.opts.blindDealer else c.opts.blindBB }
-    (g.resetRoundStatus.requestReady, none)
+    (({ g with miniBet := if c.opts.blindDealer > c.opts.blindBB then c.opts.blindDealer else c.opts.blindBB } : Game).resetRoundStatus.requestReady, none)
 
 inductive Op
   | ready | payAnte | payBlinds | next
@@ -347,15 +363,17 @@ deriving Repr, DecidableEq, Inhabited
 
 namespace Game
 
-/-- action.go: `ReadyForAll` (+ `onReadiness`, `onPrepared`, `onRoundPrepared`). -/
+/-- `onReadiness` (+ `onPrepared`, `onRoundPrepared`). -/
+def readiness (g : Game) : Game :=
+  if g.round = .none then
+    if g.opts.ante > 0 then g.setEvent .anteRequested
+    else g.enterRound .preflop
+  else g.startRound
+
+/-- action.go: `ReadyForAll`. -/
 def readyForAll (g : Game) : Game × Option Err :=
   if g.event ≠ .readyRequested then (g, some .invalidAction)
-  else
-    let g := g.resetAllAllowed
-    if g.round = .none then
-      if g.opts.ante > 0 then ({ g with event := .anteRequested }, none)
-      else (g.enterRound .preflop, none)
-    else (g.startRound, none)
+  else (g.resetAllAllowed.readiness, none)
 
 /-- action.go `PayAnte`: the per-player loop (player.go `PayAnte`). -/
 def payAnteLoop : List Nat → Game → Game × Option Err
@@ -367,40 +385,40 @@ def payAnteLoop : List Nat → Game → Game × Option Err
       if p.wager > 0 then (g, some .invalidAction)
       else payAnteLoop is (g.pay i g.opts.ante false)
 
+/-- `EmitEvent(AntePaid)` + `onAntePaid`. -/
+def antePaid (g : Game) : Game :=
+  ((((g.resetAllAllowed.setEvent .antePaid).updatePots).resetAllPlayerStatus).resetRoundStatus).enterRound .preflop
+
 /-- action.go: `PayAnte` (+ `onAntePaid`). -/
 def payAnte (g : Game) : Game × Option Err :=
   if g.opts.ante = 0 then (g, some .invalidAction)
   else if g.event ≠ .anteRequested then (g, some .invalidAction)
   else
     match payAnteLoop g.seatsFromDealer g with
-    | (g, some e) => (g, some e)
-    | (g, none) =>
-      let g := g.resetAllAllowed
-      let g := ({ g with event := .antePaid } : Game).updatePots
-      let g := g.resetAllPlayerStatus.resetRoundStatus
-      (g.enterRound .preflop, none)
+    | (g', some e) => (g', some e)
+    | (g', none) => (g'.antePaid, none)
+
+/-- player.go `PayBlinds`: the amount a seat owes by its first position in bb > sb > dealer. -/
+def blindOf (m : Meta) (p : Player) : Int :=
+  if m.blindBB > 0 ∧ p.posBB then m.blindBB
+  else if m.blindSB > 0 ∧ p.posSB then m.blindSB
+  else if m.blindDealer > 0 ∧ p.posDealer then m.blindDealer
+  else 0
 
 /-- player.go: `PayBlinds` for one seat. -/
 def payBlind (g : Game) (i : Nat) : Game :=
   match g.players[i]? with
   | none => g
-  | some p =>
-    let chips : Int :=
-      if g.opts.blindBB > 0 ∧ p.posBB then g.opts.blindBB
-      else if g.opts.blindSB > 0 ∧ p.posSB then g.opts.blindSB
-      else if g.opts.blindDealer > 0 ∧ p.posDealer then g.opts.blindDealer
-      else 0
-    let chips := if p.stack < chips then p.stack else chips
-    g.pay i chips true
+  | some p => g.pay i (if p.stack < blindOf g.opts p then p.stack else blindOf g.opts p) true
+
+/-- `EmitEvent(BlindsPaid)` + `onBlindsPaid`, after the minimal raise size was set. -/
+def blindsPaid (g : Game) : Game :=
+  (((g.setPrev (if g.opts.blindBB > 0 then g.opts.blindBB else g.opts.blindDealer)).resetAllAllowed).setEvent .blindsPaid).prepareRound
 
 /-- action.go: `PayBlinds` (+ `onBlindsPaid`). -/
 def payBlinds (g : Game) : Game × Option Err :=
   if g.event ≠ .blindsRequested then (g, some .invalidAction)
-  else
-    let g := g.seatsFromDealer.foldl payBlind g
-    let g := { g with prev := if g.opts.blindBB > 0 then g.opts.blindBB else g.opts.blindDealer }
-    let g := g.resetAllAllowed
-    (({ g with event := .blindsPaid } : Game).prepareRound, none)
+  else ((g.seatsFromDealer.foldl payBlind g).blindsPaid, none)
 
 /-- game.go: `Next`. -/
 def next (g : Game) : Game × Option Err :=
@@ -413,39 +431,45 @@ def allows (g : Game) (i : Nat) (a : Act) : Bool :=
   | some p => p.allowed.contains a
   | none => false
 
-def setActed (g : Game) (i : Nat) : Game := g.modP i fun p => { p with acted := true }
-
 /-- player.go: `Call` (after its `CheckAction` guard). -/
 def doCall (g : Game) (i : Nat) : Game :=
   match g.players[i]? with
   | none => g
   | some p =>
-    let delta := if g.cw < g.opts.blindBB then g.opts.blindBB - p.wager else g.cw - p.wager
-    ((g.setActed i).pay i delta true).resume
+    ((g.setActed i).pay i (if g.cw < g.opts.blindBB then g.opts.blindBB - p.wager else g.cw - p.wager) true).resume
 
 /-- player.go: `Allin` (after its guard). -/
 def doAllin (g : Game) (i : Nat) : Game :=
   match g.players[i]? with
   | none => g
   | some p =>
-    let g := g.setActed i
-    let raised := p.initial - g.cw
-    let g := if raised ≥ g.prev then { g with prev := raised } else g
-    (g.pay i p.stack true).resume
+    (((if p.initial - g.cw ≥ g.prev then (g.setActed i).setPrev (p.initial - g.cw) else g.setActed i)).pay i p.stack true).resume
+
+/-- player.go: `Fold` (after its guard). -/
+def doFold (g : Game) (i : Nat) : Game :=
+  (g.modP i fun p => { p with fold := true, acted := true }).resume
+
+/-- player.go: `Bet` (after its guards). -/
+def doBet (g : Game) (i : Nat) (x : Int) : Game :=
+  ((((g.setActed i).pay i x true)).setPrev x).resume
+
+/-- player.go: `Raise` once the request is known to be a proper raise. -/
+def doRaise (g : Game) (i : Nat) (p : Player) (x : Int) : Game :=
+  let capped := g.opts.potLimit && decide (x - g.cw > g.cw + g.prev)
+  let raised := if capped then g.cw + g.prev else x - g.cw
+  let required := if capped then g.cw + g.prev + g.cw - p.wager else x - p.wager
+  ((((g.setActed i).setPrev raised).pay i required true)).resume
 
 /-- player.go: the player actions `Pass, Fold, Check, Call, Allin, Bet, Raise, Pay` on seat `i`. -/
 def act (g : Game) (i : Nat) (a : Act) (x : Int) : Game × Option Err :=
   match a with
   | .pass =>
-    if !g.allows i .pass then (g, some .invalidAction)
-    else ((g.setActed i).resume, none)
+    if !g.allows i .pass then (g, some .invalidAction) else ((g.setActed i).resume, none)
   | .pay => if !g.allows i .pay then (g, some .invalidAction) else ((g.pay i x true).resume, none)
   | .fold =>
-    if !g.allows i .fold then (g, some .invalidAction)
-    else ((g.modP i fun p => { p with fold := true, acted := true }).resume, none)
+    if !g.allows i .fold then (g, some .invalidAction) else (g.doFold i, none)
   | .check =>
-    if !g.allows i .check then (g, some .invalidAction)
-    else ((g.setActed i).resume, none)
+    if !g.allows i .check then (g, some .invalidAction) else ((g.setActed i).resume, none)
   | .call =>
     if !g.allows i .call then (g, some .invalidAction) else (g.doCall i, none)
   | .allin =>
@@ -453,9 +477,7 @@ def act (g : Game) (i : Nat) (a : Act) (x : Int) : Game × Option Err :=
   | .bet =>
     if !g.allows i .bet then (g, some .invalidAction)
     else if x < 0 then (g, some .invalidAction)
-    else
-      let g := (g.setActed i).pay i x true
-      (({ g with prev := x } : Game).resume, none)
+    else (g.doBet i x, none)
   | .raise =>
     if !g.allows i .raise then (g, some .invalidAction)
     else if x = 0 ∨ x < g.cw then (g, some .illegalRaise)
@@ -465,18 +487,9 @@ def act (g : Game) (i : Nat) (a : Act) (x : Int) : Game × Option Err :=
       match g.players[i]? with
       | none => (g, none)
       | some p =>
-        let raised := x - g.cw
-        let required := x - p.wager
-        if x ≥ p.initial ∨ raised < g.prev then
+        if x ≥ p.initial ∨ x - g.cw < g.prev then
           (if !g.allows i .allin then (g, some .invalidAction) else (g.doAllin i, none))
-        else
-          let maxRaise := g.cw + g.prev
-          let capped := g.opts.potLimit && decide (raised > maxRaise)
-          let raised' := if capped then maxRaise else raised
-          let required' := if capped then maxRaise + g.cw - p.wager else required
-          let g := g.setActed i
-          let g := { g with prev := raised' }
-          ((g.pay i required' true).resume, none)
+        else (g.doRaise i p x, none)
 
 /-- One operation of the engine's alphabet (DESIGN §5). -/
 def step (g : Game) (op : Op) : Game × Option Err :=
